@@ -172,6 +172,7 @@ theorem schur_model_never_err (R : Ops α) (upper : Bool) (M : DMat α) (m n r :
     schurModel R upper M m n r ≠ .err :=
   schurModel_ne_err upper M m n r
 
+omit [CommRing K] in
 /-- the four blocks are the blocks of `M`: `fromBlocks A B C D` is `M` re-indexed along
 `Fin r ⊕ Fin (m−r) ≃ Fin m`, `Fin r ⊕ Fin (n−r) ≃ Fin n`. -/
 theorem schur_model_blocks (R : Ops α) (φ : α → K) (M : DMat α) (m n r : Nat) (hm : r ≤ m) (hn : r ≤ n) :
@@ -397,9 +398,10 @@ example : (schurModel opsZ false #[#[2, 0], #[0, 5]] 2 2 1).isOk = true := by de
 
 /-- … it does as soon as the inverse is needed -/
 example : schurModel opsZ false #[#[2, 1], #[0, 5]] 2 2 1 = .panic := by
+  have hk : (schurModel opsZ false #[#[2, 1], #[0, 5]] 2 2 1).isOk = false := by decide +kernel
   cases h : schurModel opsZ false #[#[2, 1], #[0, 5]] 2 2 1 with
   | panic => rfl
-  | ok o => exact absurd (congrArg Res.isOk h) (by decide +kernel)
+  | ok o => rw [h] at hk; cases hk
   | err => exact absurd h (schurModel_ne_err _ _ _ _ _)
 
 /-- a violated guard (`is_triang`) panics -/
